@@ -92,6 +92,10 @@ var (
 	// a serialized extended key does not match the calculated value.
 	ErrBadChecksum = errors.New("bad extended key checksum")
 
+	// ErrInvalidPubKeyX describes an error in which the x coordinate of the
+	// public key in a serialized extended key is not below the field prime.
+	ErrInvalidPubKeyX = errors.New("public key x coordinate is out of range")
+
 	// ErrInvalidKeyLen describes an error in which the provided serialized
 	// key is not the expected length.
 	ErrInvalidKeyLen = errors.New("the provided serialized extended key " +
@@ -545,9 +549,15 @@ func NewKeyFromString(key string) (*ExtendedKey, error) {
 	} else {
 		// Ensure the public key parses correctly and is actually on the
 		// secp256k1 curve.
-		_, err := btcec.ParsePubKey(keyData, btcec.S256())
+		pubKey, err := btcec.ParsePubKey(keyData, btcec.S256())
 		if err != nil {
 			return nil, err
+		}
+		// btcec does not range-check the x coordinate of a compressed
+		// key: x >= p would be reduced silently and a second, different
+		// serialization of the same point accepted.
+		if pubKey.X.Cmp(btcec.S256().P) >= 0 {
+			return nil, ErrInvalidPubKeyX
 		}
 	}
 
